@@ -1,6 +1,7 @@
 """C09  Each response depends on its own request only; retained state is bounded."""
 import gc
 import itertools
+import sys
 import weakref
 
 from hypothesis import strategies as st
@@ -21,7 +22,7 @@ RULE = ('request kinds (vlib/site.py): ok (sets cookie, header, status from its 
         'objects has not grown by more than 40 between N = 160 and N = 400 (300 and 2000 in thorough; N1 lies beyond the 128-entry urlsplit cache of the standard library). Non-trivial = consecutive requests of different kinds where the '
         'earlier one left state (cookie / header / status / error); distinct ordered kind pairs covered are reported.')
 ASSUMPTIONS = ['one worker thread (reuse of the per-thread request/response objects is the mechanism under test)',
-               '"constant" retention is operationalised as <= 10 live environ/stream objects, no growth between N1 and N2, and <= 40 additional gc-tracked objects over 240 further requests, measured after the bounded caches of the standard library (urlsplit LRU, 128 entries) are full',
+               '"constant" retention is operationalised as <= 10 live environ/stream objects, no growth between N1 and N2, <= 40 additional gc-tracked objects over 240 further requests, and (third window, another 240 requests) at most one additional allocated memory block per request (sys.getallocatedblocks: strings, registry and cache entries that the gc census cannot see), measured after the bounded caches of the standard library (urlsplit LRU, 128 entries) are full',
                'reference responses come from applications created before the application under test (application independence is C10)']
 
 LEAVES_STATE = {'ok', 'ok_json_accept', 'crash', 'raised', 'gen', 'cookie_then_abort', 'badchunk', 'oversized', 'badjson', 'badmultipart', 'notfound_json', 'badpath', 'head_ok'}
@@ -123,6 +124,16 @@ def census(ctx, kinds, n1, n2, label):
     alive2 = sum(1 for r in refs if r() is not None)
     objs2 = len(gc.get_objects())
     growth = objs2 - objs1 - (len(refs) - nrefs1)       # the census' own weakref objects are not counted
+    # third window: memory blocks of any kind (strings, registry entries, cache slots are invisible to the gc census)
+    del refs[:]
+    gc.collect()
+    blocks2 = sys.getallocatedblocks()
+    n3 = n2 + (n2 - n1)
+    while i < n3:
+        call_app(app, S.make_env(kinds[i % len(kinds)], i))
+        i += 1
+    gc.collect()
+    block_growth = sys.getallocatedblocks() - blocks2
     ctx.evals += 1
     ctx.count('retention_runs')
     ctx.nontrivial(f'retention:{label}:{n2}')
@@ -133,6 +144,10 @@ def census(ctx, kinds, n1, n2, label):
         raise CheckFailure(f'after {n2} requests of {label} {alive2} per-request objects (environ / input stream) are still alive ({alive1} after {n1}): not constant')
     if growth > 40:
         raise CheckFailure(f'gc-tracked objects grew by {growth} between request {n1} and request {n2} of {label} ({objs1} -> {objs2}): per-request state is being retained')
+    if block_growth > (n3 - n2):
+        raise CheckFailure(f'allocated memory blocks grew by {block_growth} over requests {n2}..{n3} of {label} (more than one block per request, long after every bounded cache '
+                           f'has filled): per-request state is being retained')
+    ctx.strata['max_block_growth_per_%d_requests' % (n3 - n2)] = max(ctx.strata.get('max_block_growth_per_%d_requests' % (n3 - n2), 0), block_growth)
     ctx.strata['max_alive_per_request_objects'] = max(ctx.strata.get('max_alive_per_request_objects', 0), alive2)
     ctx.strata['max_gc_object_growth'] = max(ctx.strata.get('max_gc_object_growth', 0), growth)
     return case
